@@ -101,6 +101,43 @@ impl RuntimeError {
     }
 }
 
+/// Verification hook: counters showing that a run actually exercised memory
+/// reclamation (frame resets, pool slot returns, promotions that copied a string).
+/// Evidence only; compiled in with `--cfg naijascript_verif`.
+#[cfg(naijascript_verif)]
+pub mod verif_counters {
+    use std::cell::Cell;
+
+    thread_local! {
+        static FRAME_RESETS: Cell<u64> = const { Cell::new(0) };
+        static POOL_RETURNS: Cell<u64> = const { Cell::new(0) };
+        static PROMOTIONS: Cell<u64> = const { Cell::new(0) };
+    }
+
+    pub fn reset() {
+        FRAME_RESETS.with(|c| c.set(0));
+        POOL_RETURNS.with(|c| c.set(0));
+        PROMOTIONS.with(|c| c.set(0));
+    }
+
+    /// (frame resets, pool returns, promotions)
+    pub fn snapshot() -> (u64, u64, u64) {
+        (FRAME_RESETS.with(Cell::get), POOL_RETURNS.with(Cell::get), PROMOTIONS.with(Cell::get))
+    }
+
+    pub(crate) fn frame_reset() {
+        FRAME_RESETS.with(|c| c.set(c.get() + 1));
+    }
+
+    pub(crate) fn pool_return() {
+        POOL_RETURNS.with(|c| c.set(c.get() + 1));
+    }
+
+    pub(crate) fn promotion() {
+        PROMOTIONS.with(|c| c.set(c.get() + 1));
+    }
+}
+
 /// Maximum native stack bytes the runtime is allowed to consume.
 /// Adapts automatically to debug vs release frame sizes and platform
 /// stack limits. Sized to fit within the default 8 MiB thread stack
@@ -167,6 +204,8 @@ impl<'a> Value<'a> {
         if let Value::Str(ArenaCow::Owned(s)) = self {
             let ptr = s.as_bytes().as_ptr();
             if pool.contains(ptr) {
+                #[cfg(naijascript_verif)]
+                verif_counters::pool_return();
                 unsafe {
                     pool.dealloc(
                         std::ptr::NonNull::new_unchecked(ptr.cast_mut()),
@@ -503,6 +542,8 @@ impl<'a> Runtime<'a> {
                     }
 
                     if let Some(offset) = frame_offset {
+                        #[cfg(naijascript_verif)]
+                        verif_counters::frame_reset();
                         unsafe { self.frame.reset(offset) };
                     }
                 }
@@ -1585,6 +1626,8 @@ impl<'a> Runtime<'a> {
             let staged = ArenaString::from_str(self.arena, s.as_str());
             // Drop frame string before reset (deallocate is a no-op).
             drop(s);
+            #[cfg(naijascript_verif)]
+            verif_counters::frame_reset();
             unsafe { self.frame.reset(frame_offset) };
             // Reconstruct on the caller's frame from staged bytes.
             let result = ArenaString::from_str(self.frame, staged.as_str());
@@ -1597,12 +1640,16 @@ impl<'a> Runtime<'a> {
         if matches!(val, Value::Array(_)) {
             // Arrays promoted to persistent via pool.
             let promoted = val.promote(&self.pool, self.frame);
+            #[cfg(naijascript_verif)]
+            verif_counters::frame_reset();
             unsafe { self.frame.reset(frame_offset) };
             return promoted;
         }
 
         // Numbers, bools, null, borrowed strings, persistent-owned strings
         // all survive frame reset without staging.
+        #[cfg(naijascript_verif)]
+        verif_counters::frame_reset();
         unsafe { self.frame.reset(frame_offset) };
         val
     }
